@@ -814,12 +814,13 @@ structure Inv (stops : List Bytes) (st : St) : Prop where
   held : Held stops st.genText st.pending.flatten.length
 
 /-- what is true of the state in which the loop is left -/
-def Post (stops : List Bytes) (f : St) : Prop :=
+def Post (pinned : Bool) (stops : List Bytes) (f : St) : Prop :=
   match f.cause with
   | none => Inv stops f
   | some (.stopString s) =>
-      f.done = some .stop ∧ s ∈ stops ∧ findStop f.genText stops = some s ∧
-      (∃ idx, indexOf s f.genText = some idx ∧ f.outText = f.genText.take idx) ∧
+      f.done = some .stop ∧ s ∈ stops ∧ (pinned = true → findStop f.genText stops = some s) ∧
+      (∃ idx, indexOf s f.genText = some idx ∧ f.outText = f.genText.take idx ∧
+        (pinned = false → ∀ t ∈ stops, ∀ j, indexOf t f.genText = some j → idx ≤ j)) ∧
       (∀ t ∈ stops, ¬ Occurs t f.gen.dropLast.flatten) ∧ f.pending = []
   | some .eos =>
       f.done = some .stop ∧ f.outText = trimValid f.genText ∧ (∀ t ∈ stops, ¬ Occurs t f.genText) ∧
@@ -858,10 +859,10 @@ theorem post_finish_flush {stops : List Bytes} {st : St} (hi : Inv stops st) (r 
 
 /-- one iteration with a piece, when the text generated so far (this piece included) is a prefix
     of valid UTF-8 -/
-theorem step_main {stops : List Bytes} (hok : StopsOk stops) {st : St} (p : Bytes)
+theorem step_main (pinned : Bool) {stops : List Bytes} (hok : StopsOk stops) {st : St} (p : Bytes)
     (hi : Inv stops st) (hvp : ValidPrefix (st.genText ++ p)) :
-    let st' := stepPiece true stops st p
-    (st'.done.isSome = true → Post stops st') ∧ (st'.done.isSome = false → Inv stops st') := by
+    let st' := stepPiece pinned stops st p
+    (st'.done.isSome = true → Post pinned stops st') ∧ (st'.done.isSome = false → Inv stops st') := by
   intro st'
   have hsplit : st.gen.flatten = st.out.flatten ++ st.pending.flatten := hi.split
   have hov : validUtf8 st.out.flatten = true := hi.outValid
@@ -884,14 +885,14 @@ theorem step_main {stops : List Bytes} (hok : StopsOk stops) {st : St} (p : Byte
     have hheld : Held stops (st.out.flatten ++ st.pending.flatten) st.pending.flatten.length := by
       rw [← hsplit]; exact hi.held
     exact occurrence_in_pending ht hno hheld h
-  rcases stepPiece_cases true stops st p with ⟨s, hs, h⟩ | ⟨hnone, _, h⟩ | ⟨hnone, hsuf, hinc, h⟩
+  rcases stepPiece_cases pinned stops st p with ⟨s, hs, h⟩ | ⟨hnone, _, h⟩ | ⟨hnone, hsuf, hinc, h⟩
   · -- a stop was found
     have hst' : st' = _ := h
     rw [hst']
     refine ⟨fun _ => ?_, fun hd => by simp at hd⟩
-    obtain ⟨hsmem, hsocc⟩ := findStop_some hs
+    obtain ⟨hsmem, hsocc⟩ := findStopV_some hs
     change Occurs s (st.pending ++ [p]).flatten at hsocc
-    change findStop (st.pending ++ [p]).flatten stops = some s at hs
+    change findStopV pinned (st.pending ++ [p]).flatten stops = some s at hs
     rw [hseq] at hsocc hs
     obtain ⟨idx, hidx⟩ := hsocc.indexOf
     obtain ⟨⟨a, b, hab, halen⟩, hmin⟩ := indexOf_spec s _ idx hidx
@@ -913,12 +914,15 @@ theorem step_main {stops : List Bytes} (hok : StopsOk stops) {st : St} (p : Byte
       rw [finish_gen]; show (st.push p).gen.flatten = _; rw [hgen', hseq]
     have hG : st.out.flatten ++ (st.pending.flatten ++ p) = (st.out.flatten ++ a) ++ s ++ b := by
       rw [hab]; simp [List.append_assoc]
-    show Post stops _
+    show Post pinned stops _
     unfold Post
     simp only [finish_cause, finish_done, finish_pending, St.genText, St.outText, true_and, and_true]
     rw [hgenf, hout]
     refine ⟨hsmem, ?_, ?_, ?_⟩
-    · rw [← hs]
+    · intro hp
+      subst hp
+      have hs : findStop (st.pending.flatten ++ p) stops = some s := hs
+      rw [← hs]
       apply findStop_congr
       intro t ht
       constructor
@@ -940,10 +944,27 @@ theorem step_main {stops : List Bytes} (hok : StopsOk stops) {st : St} (p : Byte
         rw [← halen', hz1] at *
         simp at h2 ⊢
         omega
-      refine ⟨j, hj, ?_⟩
-      rw [hjeq, hG, ← halen]
-      have hl : (st.out.flatten ++ a).length = st.out.flatten.length + a.length := List.length_append
-      rw [List.append_assoc (st.out.flatten ++ a) s b, ← hl, List.take_left]
+      refine ⟨j, hj, ?_, ?_⟩
+      · rw [hjeq, hG, ← halen]
+        have hl : (st.out.flatten ++ a).length = st.out.flatten.length + a.length := List.length_append
+        rw [List.append_assoc (st.out.flatten ++ a) s b, ← hl, List.take_left]
+      · intro hp t ht jt hjt
+        subst hp
+        have hs : findStopEarliest (st.pending.flatten ++ p) stops = some s := hs
+        obtain ⟨_, i0, hi0, hmin0⟩ := findStopEarliest_spec hs
+        have hi0' : i0 = idx := by rw [hidx] at hi0; cases hi0; rfl
+        subst hi0'
+        obtain ⟨⟨at', bt', habt, halent⟩, _⟩ := indexOf_spec t _ jt hjt
+        have h3 : (st.out.flatten ++ st.pending.flatten) ++ p = at' ++ t ++ bt' := by
+          rw [List.append_assoc]; exact habt
+        obtain ⟨zt, hzt1, hzt2⟩ := hocc t ht at' bt' h3
+        have hoc : Occurs t (st.pending.flatten ++ p) := ⟨zt, bt', hzt2⟩
+        obtain ⟨k, hk⟩ := hoc.indexOf
+        have hk1 := hmin0 t ht k hk
+        have hk2 := (indexOf_spec t _ k hk).2 zt bt' hzt2
+        rw [hjeq, ← halent, hzt1]
+        simp only [List.length_append]
+        omega
     · intro t ht
       rw [finish_gen]
       show ¬ Occurs t ((st.push p).gen.dropLast.flatten)
@@ -957,20 +978,20 @@ theorem step_main {stops : List Bytes} (hok : StopsOk stops) {st : St} (p : Byte
     refine ⟨fun hd => ?_, fun _ => ?_⟩
     · have : (st.push p).done = none := hi.done
       rw [this] at hd; cases hd
-    · change findStop (st.pending ++ [p]).flatten stops = none at hnone
+    · change findStopV pinned (st.pending ++ [p]).flatten stops = none at hnone
       refine ⟨hi.done, hi.cause, hgen', hov, ?_, ?_⟩
       · intro t ht ⟨a, b, hab⟩
         have hab' : (st.push p).gen.flatten = a ++ t ++ b := hab
         rw [hgen', hseq, ← List.append_assoc] at hab'
         obtain ⟨z, _, hz⟩ := hocc t ht a b hab'
-        exact findStop_none hnone t ht ⟨z, b, by rw [hseq]; exact hz⟩
+        exact findStopV_none hnone t ht ⟨z, b, by rw [hseq]; exact hz⟩
       · show Held stops (st.push p).gen.flatten (st.pending ++ [p]).flatten.length
         rw [hgen', hseq, ← List.append_assoc, List.length_append, ← hsplit]
         exact hi.held.append p
   · -- flushed
     have hst' : st' = (st.push p).flush := h
     rw [hst']
-    change findStop (st.pending ++ [p]).flatten stops = none at hnone
+    change findStopV pinned (st.pending ++ [p]).flatten stops = none at hnone
     change containsStopSuffix (st.pending ++ [p]).flatten stops = false at hsuf
     change incompleteUnicode (st.pending ++ [p]).flatten = false at hinc
     have hvalid : validUtf8 (st.pending ++ [p]).flatten = true := by
@@ -991,7 +1012,7 @@ theorem step_main {stops : List Bytes} (hok : StopsOk stops) {st : St} (p : Byte
       have hab' : (st.push p).flush.gen.flatten = a ++ t ++ b := hab
       rw [flush_gen, hgen', hseq, ← List.append_assoc] at hab'
       obtain ⟨z, _, hz⟩ := hocc t ht a b hab'
-      exact findStop_none hnone t ht ⟨z, b, by rw [hseq]; exact hz⟩
+      exact findStopV_none hnone t ht ⟨z, b, by rw [hseq]; exact hz⟩
     · show Held stops (st.push p).flush.gen.flatten (st.push p).flush.pending.flatten.length
       rw [flush_gen, flush_pending, hgen']
       intro t ht i h1 hile hs
@@ -1021,11 +1042,12 @@ theorem stepPiece_genText (pinned : Bool) (stops : List Bytes) (st : St) (p : By
 /-- **The whole run.** For every script, every limit and every list of valid non-empty stops: if
     the text generated up to the terminating event is a prefix of valid UTF-8, the final state
     satisfies `Post`. -/
-theorem run_main {stops : List Bytes} (hok : StopsOk stops) (limit : Int) (evs : List Ev) :
-    ValidPrefix (run true limit stops init evs).genText → Post stops (run true limit stops init evs) := by
-  refine run_ind (pinned := true) (limit := limit) (stops := stops)
+theorem run_main (pinned : Bool) {stops : List Bytes} (hok : StopsOk stops) (limit : Int) (evs : List Ev) :
+    ValidPrefix (run pinned limit stops init evs).genText →
+      Post pinned stops (run pinned limit stops init evs) := by
+  refine run_ind (pinned := pinned) (limit := limit) (stops := stops)
     (Inv := fun st => ValidPrefix st.genText → Inv stops st)
-    (Post := fun f => ValidPrefix f.genText → Post stops f) ?_ ?_ ?_ ?_ ?_ evs init
+    (Post := fun f => ValidPrefix f.genText → Post pinned stops f) ?_ ?_ ?_ ?_ ?_ evs init
     (fun _ => inv_init stops hok)
   · intro st hi _ hvp
     have := hi hvp
@@ -1044,9 +1066,117 @@ theorem run_main {stops : List Bytes} (hok : StopsOk stops) (limit : Int) (evs :
     exact ⟨rfl, this.1, this.2, finish_pending _ _ _⟩
   · intro st p hi _ hd hvp
     rw [stepPiece_genText] at hvp
-    exact (step_main hok p (hi hvp.left) hvp).1 hd
+    exact (step_main pinned hok p (hi hvp.left) hvp).1 hd
   · intro st p hi _ hd hvp
     rw [stepPiece_genText] at hvp
-    exact (step_main hok p (hi hvp.left) hvp).2 hd
+    exact (step_main pinned hok p (hi hvp.left) hvp).2 hd
+
+/-! ## G. the ghost fields and the script -/
+
+theorem stepPiece_np (pinned : Bool) (stops : List Bytes) (st : St) (p : Bytes) :
+    (stepPiece pinned stops st p).numPredicted = st.numPredicted + 1 := by
+  rcases stepPiece_cases pinned stops st p with ⟨s, _, h⟩ | ⟨_, _, h⟩ | ⟨_, _, _, h⟩
+  · rw [h, finish_np]; rfl
+  · rw [h]; rfl
+  · rw [h, flush_np]; rfl
+
+theorem stepPiece_cause (pinned : Bool) (stops : List Bytes) (st : St) (p : Bytes) (h0 : st.done = none)
+    (h1 : st.cause = none) :
+    ((stepPiece pinned stops st p).done.isSome = true → ∃ s, (stepPiece pinned stops st p).cause = some (.stopString s)) ∧
+    ((stepPiece pinned stops st p).done.isSome = false →
+      (stepPiece pinned stops st p).done = none ∧ (stepPiece pinned stops st p).cause = none) := by
+  rcases stepPiece_cases pinned stops st p with ⟨s, _, h⟩ | ⟨_, _, h⟩ | ⟨_, _, _, h⟩
+  · rw [h]; exact ⟨fun _ => ⟨s, rfl⟩, fun hd => by simp at hd⟩
+  · rw [h]
+    have hd : (st.push p).done = none := h0
+    have hc : (st.push p).cause = none := h1
+    exact ⟨fun h => (by rw [hd] at h; cases h), fun _ => ⟨hd, hc⟩⟩
+  · rw [h]
+    have hd : (st.push p).flush.done = none := by rw [flush_done]; exact h0
+    have hc : (st.push p).flush.cause = none := by rw [flush_cause]; exact h1
+    exact ⟨fun h => (by rw [hd] at h; cases h), fun _ => ⟨hd, hc⟩⟩
+
+/-- what the ghost fields `gen` and `cause` mean in terms of the script: the sampled pieces are
+    the first events of the script, and the cause says why the next event was not consumed -/
+theorem consumed_gen (pinned : Bool) (limit : Int) (stops : List Bytes) :
+    ∀ (evs : List Ev) (st : St), st.done = none → st.cause = none →
+      st.numPredicted = st.gen.length → (limit > 0 → (st.numPredicted : Int) ≤ limit) →
+      let f := run pinned limit stops st evs
+      ∃ ps, f.gen = st.gen ++ ps ∧ ps.map Ev.piece <+: evs ∧
+        (f.cause = some .eos → evs[ps.length]? = some .eos ∧ f.numPredicted = f.gen.length + 1) ∧
+        (f.cause = some .limit → limit > 0 ∧ (f.gen.length : Int) = limit ∧ f.numPredicted = f.gen.length) ∧
+        (f.cause = none → ps.length = evs.length ∧ ¬ (limit > 0 ∧ (f.gen.length : Int) ≥ limit) ∧
+          f.numPredicted = f.gen.length) ∧
+        (∀ s, f.cause = some (.stopString s) → f.numPredicted = f.gen.length ∧
+          ¬ (limit > 0 ∧ (f.gen.length : Int) > limit)) := by
+  intro evs
+  induction evs with
+  | nil =>
+    intro st hd hc hnp hle
+    simp only [run]
+    split
+    · rename_i hl
+      refine ⟨[], by simp, by simp, by simp, ?_, by simp, by simp⟩
+      intro _
+      have := hle hl.1
+      refine ⟨hl.1, ?_, by simpa using hnp⟩
+      simp only [finish_gen]; rw [← hnp]; omega
+    · rename_i hl
+      refine ⟨[], by simp, by simp, by simp [hc], by simp [hc], ?_, by simp [hc]⟩
+      intro _
+      exact ⟨rfl, by rw [← hnp]; exact hl, hnp⟩
+  | cons ev rest ih =>
+    intro st hd hc hnp hle
+    simp only [run]
+    split
+    · rename_i hl
+      refine ⟨[], by simp, by simp, by simp, ?_, by simp, by simp⟩
+      intro _
+      have := hle hl.1
+      refine ⟨hl.1, ?_, by simpa using hnp⟩
+      simp only [finish_gen]; rw [← hnp]; omega
+    · rename_i hl
+      cases ev with
+      | eos =>
+        refine ⟨[], by simp, by simp, ?_, by simp, by simp, by simp⟩
+        intro _
+        simp [hnp]
+      | piece p =>
+        simp only
+        have hnp' := stepPiece_np pinned stops st p
+        have hgen' := stepPiece_gen pinned stops st p
+        have hcs := stepPiece_cause pinned stops st p hd hc
+        split
+        · rename_i hdone
+          obtain ⟨s, hs⟩ := hcs.1 hdone
+          refine ⟨[p], hgen', by simp, by simp [hs], by simp [hs], by simp [hs], ?_⟩
+          intro s' _
+          rw [hnp', hgen']
+          refine ⟨by simp [hnp], ?_⟩
+          simp only [List.length_append, List.length_singleton]
+          rw [← hnp]
+          intro ⟨h1, h2⟩
+          apply hl
+          exact ⟨h1, by omega⟩
+        · rename_i hdone
+          have hdone' : (stepPiece pinned stops st p).done.isSome = false := by simpa using hdone
+          obtain ⟨hd', hc'⟩ := hcs.2 hdone'
+          have hnp2 : (stepPiece pinned stops st p).numPredicted = (stepPiece pinned stops st p).gen.length := by
+            rw [hnp', hgen', hnp]; simp
+          have hle2 : limit > 0 → ((stepPiece pinned stops st p).numPredicted : Int) ≤ limit := by
+            intro hpos
+            rw [hnp']
+            have : ¬ ((st.numPredicted : Int) ≥ limit) := fun h => hl ⟨hpos, h⟩
+            omega
+          obtain ⟨ps, h1, h2, h3, h4, h5, h6⟩ := ih _ hd' hc' hnp2 hle2
+          refine ⟨p :: ps, by rw [h1, hgen']; simp, ?_, ?_, h4, ?_, h6⟩
+          · obtain ⟨w, hw⟩ := h2
+            exact ⟨w, by simp [← hw]⟩
+          · intro he
+            have := h3 he
+            simpa using this
+          · intro hn
+            have := h5 hn
+            simpa using this
 
 end OllamaVerif.Stop
